@@ -61,6 +61,8 @@ pub fn gen_keys(path: &std::path::Path) -> Result<(), String> {
 	add("rsa2048-a", ossl::rsa_pkcs8(2048))?;
 	add("rsa2048-b", ossl::rsa_pkcs8(2048))?;
 	add("rsa2048-c", ossl::rsa_pkcs8(2048))?;
+	// a larger modulus through auto-detection: the algorithm must not depend on the key size in one back end only
+	add("rsa3072-a", ossl::rsa_pkcs8(3072))?;
 	// a key behind the RemoteKeyPair interface whose signer pauses for a data-dependent time
 	add("remote-ed25519", ossl::ed25519_pkcs8())?;
 	std::fs::write(path, lines.join("\n") + "\n").map_err(|e| e.to_string())
@@ -191,6 +193,9 @@ pub struct TCrl {
 	pub idp: Option<(Vec<String>, u8)>,
 	pub revoked: Vec<(Vec<u8>, i64, Option<u8>, Option<i64>)>,
 	pub kid: KidSpec,
+	/// sub-second part and UTC offset given to every date of this CRL (the instants are the same)
+	pub nanos: u32,
+	pub offset: i32,
 }
 
 #[derive(Clone, Debug)]
@@ -277,6 +282,8 @@ pub fn table(seed: u64, k: usize, nkeys: usize, portable_only: bool) -> Vec<TCas
 						} else {
 							[KidSpec::Sha256, KidSpec::Sha384, KidSpec::Sha512][rng.below(3) as usize].clone()
 						},
+						nanos: *rng.pick(&[0, 0, 1, 500_000_000, 999_999_999]),
+						offset: *rng.pick(&[0, 0, 3600, -34_200, 20_700]),
 					},
 				}
 			},
@@ -320,7 +327,7 @@ pub fn issuers(keys: &[TKey]) -> Result<Issuers, String> {
 }
 
 fn crl_params(c: &TCrl) -> CertificateRevocationListParams {
-	let t = |u: i64| TimeSpec::utc(u).to_time().unwrap();
+	let t = |u: i64| TimeSpec { unix: u, nanos: c.nanos, offset: c.offset }.to_time().unwrap();
 	CertificateRevocationListParams {
 		this_update: t(c.this_update),
 		next_update: t(c.next_update),
